@@ -11,6 +11,7 @@
    flag, containers with equal keys / length and related contents. *)
 From Coq Require Import ZArith List Bool.
 From FV Require Import Common.Store Common.StoreSim Model.C10_Model Proofs.C10_Proofs.
+From FV Require gen.Gen_for_each_client gen.Gen_tree_util gen.Gen_c10_optimizers.
 Import ListNotations.
 
 (* every location that existed before the call -- in particular everything reachable from the
@@ -60,6 +61,27 @@ Theorem C10_rng_state_threaded : forall a W K rd s st cl bits rng k σ', is_agg 
                    nth_error (sto σ') nr = Some (CArr (next_key a k) false).
 Proof. exact rng_state_threaded. Qed.
 
+(* T: the container effects found in the TEXT of every apply() (translated on this run by
+   tools/anchors/c10_effects.py into gen/Gen_c10_*.v) write only objects created by the call, donate
+   nothing that the caller owns and touch no state that outlives the call ... *)
+Theorem C10_source_effects_wf : forallb (forallb ewf) source_effects = true.
+Proof. exact source_effects_wf. Qed.
+
+(* ... and the scripts the other theorems are about perform exactly these effects, in this order *)
+Theorem C10_scripts_match_source :
+  forallb (fun t => match t with (s1, s2, src) => ecmds_eqb s1 src && ecmds_eqb s2 src end) effect_instances = true.
+Proof. exact scripts_match_source. Qed.
+
+(* T: what for_each_client's jit backend, tree_util's in-place helpers and the optax wrapper donate
+   (the scripts are built from these translated constants) *)
+Theorem C10_library_donations :
+  Gen_for_each_client.jit_init_copies = true /\ Gen_for_each_client.jit_init_donates = [] /\
+  Gen_for_each_client.jit_step_donates = [0%Z] /\ Gen_for_each_client.jit_final_donates = [1%Z] /\
+  Gen_tree_util.tree_weight_donates = [] /\ Gen_tree_util.tree_add_donates = [] /\
+  Gen_tree_util.tree_add_eq_donates = [0] /\ Gen_tree_util.tree_weight_eq_donates = [0] /\
+  Gen_c10_optimizers.optax_apply_donates = [].
+Proof. exact library_donations. Qed.
+
 (* the check is not vacuous: the pre-fix APFL script (in-place write into the input table) is
    rejected by the well-formedness check and does change an input cell when run *)
 Example C10_apfl_inplace_refuted :
@@ -90,3 +112,6 @@ Print Assumptions C10_apply_is_function_of_values.
 Print Assumptions C10_repeatable.
 Print Assumptions C10_restore_and_continue.
 Print Assumptions C10_rng_state_threaded.
+Print Assumptions C10_source_effects_wf.
+Print Assumptions C10_scripts_match_source.
+Print Assumptions C10_library_donations.
